@@ -27,4 +27,19 @@ func init() {
 		Stub:      []string{"SimKV index rows", "SimStore blob source", "sync / go4.org/syncutil shims"},
 		MustReach: []string{"compare-with-pending", "corpus-scanned-mid-history", "restart-mid-history", "out-of-order-claim-date", "delete-before-target", "answers-compared"},
 	}
+	specs["C07"] = &propSpec{
+		ID: "C07", Engine: "indexsim", Level: "exploration",
+		QuickRuns: 30000, ThoroughRuns: 900000, Chunk: 50, WatchdogS: 400,
+		Rule: "one evaluation = one claim world (1-2 signers, 1-2 permanodes, 1-12 set/add/del-attribute claims with and without value, repeated values, values needing escaping, distinct claim dates, delete/undelete chains of depth <= 4 on claims and permanodes) delivered in a permuted order (date order in a quarter of the runs) by 1-3 clients, in one of three modes (index rows only; corpus loaded from the existing rows at a seeded point; corpus built incrementally) with an optional restart and an optional claim that never arrives; sub-runs = check points (an optional seeded one and the end) at which, at quiescence, every answer is compared with a folding model written from doc/schema/permanode.md and delete.md: Index.IsDeleted and Corpus.IsDeleted for every permanode/claim/delete claim, Index.AppendClaims for every signer and attribute filter (as a set), Corpus.PermanodeModtime (while the permanode is not deleted), and Corpus.PermanodeAttrValue / AppendPermanodeAttrValues (every signer filter incl. none) / PermanodeHasAttrValue for every claimed attribute and T in {zero, each claim date -1ns/+0/+1ns, seeded instants}; without a corpus the same values through search.Handler.Describe with At (which keeps a value once: compared with the model's list deduplicated); non-trivial = at least 2 non-key blobs delivered; distinct = distinct (mode, blob-kind sequence, claim-type sequence)",
+		Assume: []string{
+			"equal claim dates are not generated here (the documents do not define their order); C06 covers them as a restart difference",
+			"a blob takes part in the model once the index can have processed it (delivered, signer's key delivered, delete target known); what happens to waiting blobs is C05's subject",
+			"PermanodeModtime is compared only while the permanode itself is not deleted (delete.md: deletions are not modifications; the method's comment speaks of deleted claims only)",
+			"signer filter \"\" means claims of every signer folded together in date order (doc comments: the filter is optional)",
+			"search.Handler.Query is not exercised here (C08)",
+		},
+		Real:      []string{"pkg/index (corpus attribute caches, fixupLastClaim/restoreInvariants, valuesAtSigner, claimsIntfAttrValue, IsDeleted, AppendClaims, receive path)", "pkg/search (Handler.Describe)", "pkg/schema", "pkg/jsonsign"},
+		Stub:      []string{"SimKV index rows", "SimStore blob source", "sync / go4.org/syncutil shims"},
+		MustReach: []string{"mode-rows", "mode-scan", "mode-incr", "restart-mid-history", "out-of-order-claim-date", "delete-chain-depth3", "model-deleted-claim", "corpus-scanned-from-rows"},
+	}
 }
